@@ -9,6 +9,7 @@ import math
 
 from vlib.gen import net as gnet
 from vlib import simobs
+from vlib.props import suite
 
 ID = 'C16'
 LEVEL = 'fault_enumeration'
@@ -34,10 +35,16 @@ LINK_KEYS = ['flowrate', 'velocity', 'status', 'setting']
 
 
 def n_cases(tier):
+    return base_cases(tier) + len(suite.files(tier))     # + the repository's own tests under the monitor (vlib/props/suite.py)
+
+
+def base_cases(tier):
     return 130 if tier == 'quick' else 1200
 
 
 def run_case(c, rng):
+    if suite.maybe_run(c, ID, base_cases(c.tier)):
+        return
     from wntr.sim.solvers import NewtonSolver
     spec = gnet.gen_spec(rng, steps=(3, 8) if c.tier == 'quick' else (3, 16), n_tank=(0, 2), p_leak=0.1, n_valve=(0, 1),
                          p_power_pump=0.03, n_junc=(2, 8) if c.tier == 'quick' else (2, 16))
